@@ -763,8 +763,9 @@ def f4(repo: Repo) -> RuleResult:
             continue
         if fi.qual not in [f.qual for f, _ in selectors]:
             selectors.append((fi, n))
-    if len(selectors) < 3:
-        res.unsure(f"F4: only {len(selectors)} readers of the -F list found (3 confirmed by hand: C source, C header, Go)")
+    # C source and C header may share one predicate; Go has its own
+    if len(selectors) < 2:
+        res.unsure(f"F4: only {len(selectors)} readers of the -F list found (3 confirmed by hand: C source, C header, Go; at least 2 when the C ones share a predicate)")
     from .flows import compiler_flow
     from .normal import show
     from .pyflow import single_atom
@@ -825,6 +826,16 @@ def f4(repo: Repo) -> RuleResult:
         if table[(True, False)] == full:
             res.bad(Finding("F4", fi.rel, fi.node.lineno, fi.qual, "", "the -F list is read but selects nothing", tag=f"{fi.qual}:no-effect"))
             continue
+        if elem is not None and elem.endswith(".name") and not elem.endswith("d.name"):
+            # a predicate helper taking the message as a parameter: every caller hands it the dispatched definition
+            base_ = elem[: -len(".name")]
+            prm_ = [a_.arg for a_ in fi.node.args.args]
+            if base_ in prm_[1:]:
+                k_ = prm_.index(base_) - 1
+                callers = [c_ for mod_ in m.mods.values() if "/renderer/" in mod_.rel for c_ in ast.walk(mod_.tree) if isinstance(c_, ast.Call) and isinstance(c_.func, ast.Attribute) and c_.func.attr == fi.node.name]
+                args_ = [src_of(c_.args[k_]) if len(c_.args) > k_ else next((src_of(kw_.value) for kw_ in c_.keywords if kw_.arg == base_), None) for c_ in callers]
+                if callers and all(a_ in ("d", "self.d") for a_ in args_):
+                    elem = "d.name"
         if elem is None or not elem.endswith("d.name"):
             if elem is not None and ".format_" in elem and "name(" in elem:
                 res.bad(Finding("F4", fi.rel, fi.node.lineno, fi.qual, elem, f"membership in the -F list is tested for `{elem}` (the name as generated, with prefix / nesting / case conversion), not for the message's schema name: -F Foo selects nothing, or another message, once names are transformed", witness="c.name_prefix = \"My\" with -F Foo: no encoder is generated for Foo", tag=f"{fi.qual}:element"))
